@@ -1,4 +1,5 @@
 import CheetahModel.Proofs.SemLawful
+import CheetahModel.Proofs.Tables
 /-!
 # C08 — lattice speed optimisations do not change tracking results
 
@@ -57,5 +58,22 @@ theorem merge_track_particle_beam (k : Consts ℝ) (keep : Lat (Elem ℝ) → Bo
 /-- markers track as the identity, for both beam types (so removing them is sound) -/
 theorem marker_identity (k : Consts ℝ) (b : PBeam ℝ) (b' : MBeam ℝ) :
     Elem.trackP k .marker b = b ∧ Elem.trackM k .marker b' = b' := ⟨rfl, rfl⟩
+
+/-- the `is_skippable` / `is_active` normal forms and the tracking-method dispatch of every element class of
+/repo (regenerated on every run) are the reviewed ones: energy-changing elements (Cavity: `not is_active`),
+non-linear ones (SpaceChargeKick, TransverseDeflectingCavity: `False`; Bmad-X tracked: `tracking_method == 'cheetah'`)
+and active diagnostics / apertures are never unconditionally skippable -/
+theorem skippability_table : Gen.predicates = Gen.pinnedPredicates := by decide +kernel
+
+theorem energy_changing_or_nonlinear_not_skippable :
+    ((Gen.findPred "Cavity").map (·.isSkippable)) = some "not self.is_active" ∧
+    ((Gen.findPred "SpaceChargeKick").map (·.isSkippable)) = some "False" ∧
+    ((Gen.findPred "TransverseDeflectingCavity").map (·.isSkippable)) = some "False" ∧
+    ((Gen.findPred "Drift").map (·.isSkippable)) = some "self.tracking_method == 'cheetah'" ∧
+    ((Gen.findPred "Quadrupole").map (·.isSkippable)) = some "self.tracking_method == 'cheetah'" ∧
+    ((Gen.findPred "Dipole").map (·.isSkippable)) = some "self.tracking_method == 'cheetah'" ∧
+    ((Gen.findPred "Aperture").map (·.isSkippable)) = some "not self.is_active" ∧
+    ((Gen.findPred "Screen").map (·.isSkippable)) = some "not self.is_active" ∧
+    ((Gen.findPred "BPM").map (·.isSkippable)) = some "not self.is_active" := by decide +kernel
 
 end C08
